@@ -45,8 +45,9 @@ theorem rk4_stage_eqs {n : Nat} (Kc : Nat → Vector K n) (y k1 : Vector K n) (x
   simp [stages, stages_loop1, stages_loop2, stages_loop3, rkArg, rowDot, rk4Tab, openF, kOf, num_lit, qval, z, List.zipIdx]
   stage_finish
 
-theorem rk4_update_eq {n : Nat} (F : Nat → K → Vector K n → Vector K n) (y k1 k2 k3 k4 : Vector K n) (x h : K) :
-    (update (f := F) (x := x) (h := h) (y := y) (k1 := k1) (k2 := k2) (k3 := k3) (k4 := k4)).y
+theorem rk4_update_eq {n : Nat} (F : Nat → K → Vector K n → Vector K n) (y k1 k2 k3 k4 : Vector K n) (x h : K)
+    (last : Bool) (xend : K) :
+    (update (f := F) (last := last) (xend := xend) (x := x) (h := h) (y := y) (k1 := k1) (k2 := k2) (k3 := k3) (k4 := k4)).y
       = rkNew rk4Tab h y (fun l => if l = 0 then k1 else if l = 1 then k2 else if l = 2 then k3 else k4) := by
   simp [update, update_loop1, rkNew, rowDot, rk4Tab, num_lit, qval, List.zipIdx]
   stage_finish
@@ -77,24 +78,30 @@ end rk23
 
 section dopri5
 open Gen.Dopri5
-theorem dopri5_stage_eqs {n : Nat} (Kc : Nat → Vector K n) (y k1 : Vector K n) (x h : K) :
-    (stages (f := openF Kc) (y := y) (h := h) (k1 := k1) (x := x)).calls
+theorem dopri5_stage_eqs {n : Nat} (Kc : Nat → Vector K n) (y k1 : Vector K n) (x h : K) (last : Bool) (xend : K)
+    (hl : last = true → xend = x + h) :
+    (stages (f := openF Kc) (y := y) (h := h) (k1 := k1) (x := x) (last := last) (xend := xend)).calls
       = #[rkArg dopri5Tab x h y (kOf k1 Kc) 1, rkArg dopri5Tab x h y (kOf k1 Kc) 2,
           rkArg dopri5Tab x h y (kOf k1 Kc) 3, rkArg dopri5Tab x h y (kOf k1 Kc) 4,
           rkArg dopri5Tab x h y (kOf k1 Kc) 5, rkArg dopri5Tab x h y (kOf k1 Kc) 6] := by
-  simp [stages, stages_loop1, stages_loop2, stages_loop3, stages_loop4, stages_loop5, stages_loop6, rkArg, rowDot, dopri5Tab, openF, kOf, num_lit, qval, z, one_q, List.zipIdx]
+  have hx : (if last = true then xend else x + h) = x + h := by cases last <;> simp_all
+  simp [stages, hx, stages_loop1, stages_loop2, stages_loop3, stages_loop4, stages_loop5, stages_loop6, rkArg, rowDot, dopri5Tab, openF, kOf, num_lit, qval, z, one_q, List.zipIdx]
   stage_finish
 
-theorem dopri5_new_state {n : Nat} (Kc : Nat → Vector K n) (y k1 : Vector K n) (x h : K) :
-    (stages (f := openF Kc) (y := y) (h := h) (k1 := k1) (x := x)).y1 = rkNew dopri5Tab h y (kOf k1 Kc) := by
-  simp [stages, stages_loop1, stages_loop2, stages_loop3, stages_loop4, stages_loop5, stages_loop6, rkNew, rowDot, dopri5Tab, openF, kOf, num_lit, qval, z, List.zipIdx]
+theorem dopri5_new_state {n : Nat} (Kc : Nat → Vector K n) (y k1 : Vector K n) (x h : K) (last : Bool) (xend : K)
+    (hl : last = true → xend = x + h) :
+    (stages (f := openF Kc) (y := y) (h := h) (k1 := k1) (x := x) (last := last) (xend := xend)).y1 = rkNew dopri5Tab h y (kOf k1 Kc) := by
+  have hx : (if last = true then xend else x + h) = x + h := by cases last <;> simp_all
+  simp [stages, hx, stages_loop1, stages_loop2, stages_loop3, stages_loop4, stages_loop5, stages_loop6, rkNew, rowDot, dopri5Tab, openF, kOf, num_lit, qval, z, List.zipIdx]
   stage_finish
 
 /-- outputs of the stage region are the six returned values in the buffers the later code reads -/
-theorem dopri5_stage_buffers {n : Nat} (Kc : Nat → Vector K n) (y k1 : Vector K n) (x h : K) :
-    let o := stages (f := openF Kc) (y := y) (h := h) (k1 := k1) (x := x)
+theorem dopri5_stage_buffers {n : Nat} (Kc : Nat → Vector K n) (y k1 : Vector K n) (x h : K) (last : Bool) (xend : K)
+    (hl : last = true → xend = x + h) :
+    let o := stages (f := openF Kc) (y := y) (h := h) (k1 := k1) (x := x) (last := last) (xend := xend)
     o.k3 = Kc 1 ∧ o.k4 = Kc 2 ∧ o.k5 = Kc 3 ∧ o.k6 = Kc 4 ∧ o.k2 = Kc 5 ∧ o.xph = x + h := by
-  simp [stages, openF]
+  have hx : (if last = true then xend else x + h) = x + h := by cases last <;> simp_all
+  simp [stages, hx, openF]
 
 /-- the error vector (stored in `k4`) is `h · Σ E_l K_l` with `k2` holding the seventh stage -/
 theorem dopri5_err_eq {n : Nat} (k1 k2 k3 k4 k5 k6 : Vector K n) (h : K) :
